@@ -7,6 +7,7 @@ import SctpVerif.Driver.Hs
 import SctpVerif.Driver.PendQ
 import SctpVerif.Driver.RingQ
 import SctpVerif.Driver.Reasm
+import SctpVerif.Driver.Codec
 /-!
 Driver: replays implementation logs (`<comp> <op…> -> <impl result>`) through the L0 models and
 evaluates the executable property predicates on the implementation's results.
@@ -32,6 +33,7 @@ structure All where
   pend : Pend.St := {}
   ringq : RingQ.St := {}
   reasm : Reasm.St := {}
+  codec : Cdc.St := {}
   desync : List String := []
   cnt : Counters := {}
 
@@ -55,6 +57,7 @@ def stepComp (a : All) (comp : String) (op impl : List String) : All × Option S
   | "pend" => let (s, r, e) := Pend.step a.pend op impl; ({ a with pend := s }, some r, e.toList)
   | "ringq" => let (s, r, e) := RingQ.step a.ringq op impl; ({ a with ringq := s }, some r, e.toList)
   | "reasm" => let (s, r, e) := Reasm.step a.reasm op impl; ({ a with reasm := s }, some r, e.toList)
+  | "codec" => let (s, r, e) := Cdc.step a.codec op impl; ({ a with codec := s }, some r, e.toList)
   | _ => (a, some "unknown-component", [])
 
 partial def loop (h : IO.FS.Stream) (a : All) (lineNo : Nat) : IO All := do
